@@ -441,6 +441,12 @@ C15_Unstage_C ==
     /\ Post.trees = c.trees
     /\ View(Post) = View(c)
     /\ Post.heads = c.heads
+\* the staged set is self-contained: the object of every staged revision is in the stage export or in a
+\* valid stored pack (never only in a cache) -- otherwise export/replay, commit and retry would lose it
+C15_StageComplete_A == Acting /\ HasObs(Post) /\ ~Damaged
+C15_StageComplete_C ==
+    LET av == Core!Avail(DPost.items) \cup Rng(Post.stageobjs) IN
+    \A x \in Objects(Post) : \A e \in DPost.tree[x] : e.st => (TSpecial(e.rev) \/ TDig(e.rev) \in av)
 C15_ExportReplay_A == Op("Replay") /\ OkRes /\ HasObs(Post) /\ R \in DOMAIN hp.exported /\ HasObs(hp.exported[R])
 C15_ExportReplay_C ==
     LET x == hp.exported[R] IN
@@ -530,7 +536,8 @@ Names == <<"C08_Returns", "C05_WinnerRule", "C05_TreeFromBlocks", "C02_AppliedCo
            "C09_CommitWriteOrder", "C09_CrashAtomic", "C09_FailedCommit", "C10_ErrorOrIntact",
            "C10_NoAlteredContent", "C12_NoDocChange", "C14_Travel", "C14_Retrievable", "C15_CommitCleans",
            "C15_Guards", "C15_Unstage", "C15_ExportReplay", "C19_Canonical", "C19_LeafOrderTotal", "C09_RetryDurable", "D_FrameStorage", "D_FrameMemory",
-           "X_UpdateStep", "X_ResolveStep", "X_ResolveRefused", "X_MeldStep", "X_UnstageStep", "X_CommitStep">>
+           "X_UpdateStep", "X_ResolveStep", "X_ResolveRefused", "X_MeldStep", "X_UnstageStep", "X_CommitStep",
+           "C15_StageComplete">>
 
 AllChecks ==
     /\ Chk(1, Names[1], C08_Returns_A, C08_Returns_C)
@@ -580,6 +587,7 @@ AllChecks ==
     /\ Chk(45, Names[45], X_MeldStep_A, X_MeldStep_C)
     /\ Chk(46, Names[46], X_UnstageStep_A, X_UnstageStep_C)
     /\ Chk(47, Names[47], X_CommitStep_A, X_CommitStep_C)
+    /\ Chk(48, Names[48], C15_StageComplete_A, C15_StageComplete_C)
 
 \* the same predicates as individually named invariants (MeldaTraceStrict.cfg)
 C08_Returns == C08_Returns_A => C08_Returns_C
@@ -621,6 +629,7 @@ C15_ExportReplay == C15_ExportReplay_A => C15_ExportReplay_C
 C19_Canonical == C19_Canonical_A => C19_Canonical_C
 C19_LeafOrderTotal == C19_LeafOrderTotal_A => C19_LeafOrderTotal_C
 C09_RetryDurable == C09_RetryDurable_A => C09_RetryDurable_C
+C15_StageComplete == C15_StageComplete_A => C15_StageComplete_C
 
 -----------------------------------------------------------------------------
 \* every line of the trace must be consumed; prints the antecedent counters
